@@ -498,17 +498,17 @@ Section Dispatch.
   Theorem sethelper_then_local d s1 p rest name :
     dv_params d = p :: rest -> pj_value p = JStr name ->
     exists s', apply_decorator DSetHelper d s1 = ROk tt s' /\
-      s' = set_local_helpers s1 (map_insert (s_local_helpers s1) name (HLocal name)) /\
-      find_local_helper s' name = Some (HLocal name) /\
-      (forall block, resolve_helper reg s' name block = Some (HLocal name)) /\
+      s' = set_local_helpers s1 (map_insert (s_local_helpers s1) name (HLocal (sethelper_tag d name))) /\
+      find_local_helper s' name = Some (HLocal (sethelper_tag d name)) /\
+      (forall block, resolve_helper reg s' name block = Some (HLocal (sethelper_tag d name))) /\
       helper_exists reg s' name = true.
   Proof.
     intros Hp Hv. eexists. split.
     - unfold apply_decorator. rewrite Hp, Hv. reflexivity.
     - split; [reflexivity|].
       assert (Hf : find_local_helper
-                     (set_local_helpers s1 (map_insert (s_local_helpers s1) name (HLocal name))) name
-                   = Some (HLocal name)).
+                     (set_local_helpers s1 (map_insert (s_local_helpers s1) name (HLocal (sethelper_tag d name)))) name
+                   = Some (HLocal (sethelper_tag d name))).
       { unfold find_local_helper. cbn [s_local_helpers set_local_helpers].
         apply map_get_insert_same. }
       split; [exact Hf|]. split.
